@@ -131,6 +131,75 @@ def main():
         t = copy.deepcopy(good_h)
         fn(t)
         results.append(("TraceHandover", name, h_run(t)))
+    # ---- TraceStore, op "crash" (a flush of the real store killed before one of its SQL statements, then a restart)
+    run_ = store_drv.StoreRun(w_, g_)
+    try:
+        run_.buffer(blocks_[1])
+        run_.flush()
+        run_.buffer(blocks_[2])
+        run_.buffer(blocks_[3])
+        assert run_.flush_crash(9)
+        good_c = run_.trace(1, prop="C08")
+    finally:
+        run_.close()
+
+    def c_run(t):
+        vv_, rr_ = tracecheck.run("TraceStore", [t], {}, ids=[1])
+        return vv_[1][0] if vv_[1][0] != "ok" else ("DRIFT" if tlc.tagged(rr_, "DRIFT") else "ok")
+    assert c_run(good_c) == "ok", c_run(good_c)
+    crash_ev = [i for i, e in enumerate(good_c["events"]) if e["op"] == "crash"][0]
+    b2 = [e for e in good_c["events"] if e["op"] == "buffer"][1]["blk"]
+    for name, fn in (("a block of the killed flush read back without its transactions", lambda t: t["events"][crash_ev]["read"].append(
+                          {"id": b2["id"], "parent": b2["parent"], "height": b2["height"], "txids": [], "bytes_equal": True})),
+                     ("a block read back after the crash differs in content", lambda t: t["events"][crash_ev]["read"][0].__setitem__("bytes_equal", False)),
+                     ("a block of an earlier flush lost", lambda t: t["events"][crash_ev]["read"].pop()),
+                     ("ledger rebuilt after the crash differs", lambda t: t["events"][crash_ev].__setitem__("ledger_equal", False)),
+                     ("a row of the killed flush is in a table (M layer)", lambda t: t["events"][crash_ev]["rows"]["chain"].append(b2["id"]))):
+        t = copy.deepcopy(good_c)
+        fn(t)
+        results.append(("TraceStore/crash", name, c_run(t)))
+    # ---- TraceEcho (found block x its echo)
+    hist_e = [{"t": "miner", "a": a_} for a_ in ("M1", "M4", "M5", "M6")] + [{"t": "echo", "a": "E1"}] + [{"t": "miner", "a": a_} for a_ in ("M7", "M8")]
+    good_e = {"id": 1, "hist": hist_e, "feasible": True, "errors": [], "out": {"b_sent_max": 1, "b_served": True, "b_on_disk": True}}
+
+    def e_run(t):
+        vv_, rr_ = tracecheck.run("TraceEcho", [t], {"HandOverBeforeBroadcast": True}, ids=[1])
+        f_ = tlc.tagged(rr_, "FINDING")
+        return f_[0][2] if f_ else ("DRIFT" if tlc.tagged(rr_, "DRIFT") else "ok")
+    assert e_run(good_e) == "ok", e_run(good_e)
+    for name, fn in (("a peer was sent the found block twice", lambda t: t["out"].__setitem__("b_sent_max", 2)),
+                     ("found block not in the store", lambda t: t["out"].__setitem__("b_on_disk", False)),
+                     ("echo handled before any broadcast (M layer)", lambda t: t["hist"].insert(1, t["hist"].pop(4)))):
+        t = copy.deepcopy(good_e)
+        fn(t)
+        results.append(("TraceEcho", name, e_run(t)))
+    # ---- TraceKeyEscape (the receive script killed after the address was printed)
+    good_k = {"id": 1, "script": "receive", "nkeys": 3, "events": [{"op": "handout", "k": 3}, {"op": "save", "unused": [1, 2]}, {"op": "escape", "keys": [3]},
+                                                                  {"op": "crash"}, {"op": "restart", "k": 2, "unused": [1, 2]}]}
+
+    def k_run(t):
+        vv_, rr_ = tracecheck.run("TraceKeyEscape", [t], {}, ids=[1])
+        return vv_[1][0] if vv_[1][0] != "ok" else ("DRIFT" if tlc.tagged(rr_, "DRIFT") else "ok")
+    assert k_run(good_k) == "ok", k_run(good_k)
+    for name, fn in (("the key that was printed is handed out again", lambda t: t["events"][4].update(k=3, unused=[1, 2, 3])),
+                     ("wallet.json after the save still lists the key (M layer)", lambda t: t["events"][1].__setitem__("unused", [1, 2, 3])),
+                     ("another key than the last unused one handed out (M layer)", lambda t: t["events"][0].__setitem__("k", 1))):
+        t = copy.deepcopy(good_k)
+        fn(t)
+        results.append(("TraceKeyEscape", name, k_run(t)))
+    # ---- TraceBigStore
+    good_b = {"id": 1, "rows": 4, "written": [[0, -1], [1, 0], [2, 0], [3, 1]], "read": [[0, True], [1, True], [2, True], [3, True]], "ledger_equal": True, "head_height_equal": True}
+
+    def b_run(t):
+        vv_, rr_ = tracecheck.run("TraceBigStore", [t], {}, ids=[1])
+        return vv_[1][0]
+    assert b_run(good_b) == "ok", b_run(good_b)
+    for name, fn in (("one block not read back", lambda t: t["read"].pop(2)),
+                     ("child read before its parent", lambda t: t["read"].insert(1, t["read"].pop(3))),
+                     ("head height differs", lambda t: t.__setitem__("head_height_equal", False))):
+        t = copy.deepcopy(good_b)
+        fn(t)
+        results.append(("TraceBigStore", name, b_run(t)))
     bad = [x for x in results if x[2] in ("ok", "inconclusive")]
     for x in results:
         print("%-14s %-55s -> %s" % x)
